@@ -513,6 +513,8 @@ impl FixedCapacityMemoryPool {
                 // Try to split from larger size class
                 return self.allocate_by_splitting(size_class_index);
             }
+            #[cfg(zipora_verif)]
+            crate::verif_hooks::sched_point("fc.pop.loaded", current_head as u64, 0);
 
             // Get pointer to current head block
             let memory = unsafe { (*self.memory.get()).ok_or_else(|| 
@@ -526,6 +528,8 @@ impl FixedCapacityMemoryPool {
             }
 
             let next_offset = header.next;
+            #[cfg(zipora_verif)]
+            crate::verif_hooks::sched_point("fc.pop.next", current_head as u64, next_offset as u64);
 
             // Try to update head atomically
             if free_list.head.compare_exchange_weak(
@@ -535,6 +539,8 @@ impl FixedCapacityMemoryPool {
                 Ordering::Relaxed,
             ).is_ok() {
                 free_list.count.fetch_sub(1, Ordering::Relaxed);
+                #[cfg(zipora_verif)]
+                crate::verif_hooks::sched_point("fc.pop.cas", current_head as u64, 1);
                 return NonNull::new(block_ptr)
                     .ok_or_else(|| ZiporaError::invalid_data("Null block pointer"));
             }
@@ -584,6 +590,8 @@ impl FixedCapacityMemoryPool {
         loop {
             let current_head = free_list.head.load(Ordering::Acquire);
             header.next = current_head;
+            #[cfg(zipora_verif)]
+            crate::verif_hooks::sched_point("fc.push.linked", offset as u64, current_head as u64);
 
             if free_list.head.compare_exchange_weak(
                 current_head,
@@ -592,6 +600,8 @@ impl FixedCapacityMemoryPool {
                 Ordering::Relaxed,
             ).is_ok() {
                 free_list.count.fetch_add(1, Ordering::Relaxed);
+                #[cfg(zipora_verif)]
+                crate::verif_hooks::sched_point("fc.push.cas", offset as u64, 1);
                 return Ok(());
             }
         }
